@@ -15,9 +15,10 @@
      init()               open:rb sp [read sp]; valid -> done; otherwise the create path:
                           stat J [ -> stat ws [ -> mkdir ws [EEXIST -> stat ws] ], mkdir J [EEXIST -> stat J] ],
                           stat sp [absent -> open:wb tmp, write tmp, replace tmp -> sp], open:rb sp, read sp
-     job.doc (1st access) stat J  [absent -> the whole init() sequence]      (skipped once the handle knows its directory)
+     job.doc (1st access) stat J  [absent -> the whole init() sequence]      (skipped once the handle knows its directory
+                                                                             or caches its document object)
      job.doc[k] = v       open:rb doc [read doc], open:wb tmp, write tmp, replace tmp -> doc
-     job.doc()            <begin marker>, open:rb doc [read doc]
+     job.doc()            <begin marker: the only action that is not a file-system call>, open:rb doc [read doc]
      len / iteration      listdir ws [ENOENT -> lstat ws]
 
    so TLC explores ALL interleavings at file-system-call granularity.  The file system is a small POSIX
